@@ -30,6 +30,7 @@ def _nontrivial(lines):
     kinds = set()
     in_create = {}
     in_scan = {}
+    in_release = {}
     for l in lines:
         w = l.split()
         if len(w) < 3:
@@ -52,8 +53,14 @@ def _nontrivial(lines):
                     kinds.add("create-vs-scan")
             elif w[2] == "ret" and w[3] == "lwm":
                 in_scan[t] = False
+            elif w[2] == "call" and w[3] == "release":
+                in_release[t] = True
+            elif w[2] == "ret" and w[3] == "release":
+                in_release[t] = False
         elif w[1] == "cas" and w[2] == "tbl":
             kinds.add("table-growth")
+        elif w[1] == "st" and w[2].startswith("slot") and in_release.get(t):
+            kinds.add("release-in-region")
     return kinds
 
 
@@ -97,10 +104,11 @@ def _classify(ctx, mode, env, runs, lockstep, dist, distinct, samples):
                 dist["replay_ok"] += 1
             else:
                 dist["replay_diverge"] += 1
-                ctx.broke("correspondence", "E-CONC lock-step c09 mode=%s seed=%d" % (mode, r["seed"]), "%s\n%s" % (r["replay"], text))
+                if dist["replay_diverge"] <= 4:
+                    ctx.broke("correspondence", "E-CONC lock-step c09 mode=%s seed=%d" % (mode, r["seed"]), "%s\n%s" % (r["replay"], text))
         if len(samples) < 1 and "held" in kinds and len(r["lines"]) > 60:
             samples.append([l if " tbl " not in l else " ".join(l.split()[:4]) + " <table>" for l in r["lines"][:70]])
-        if len(ctx.failing) + len(ctx.broken) > 8:
+        if len(ctx.failing) > 5:      # enough concrete failing inputs; broken obligations alone never stop the search
             return False
     return True
 
@@ -163,7 +171,8 @@ def run(ctx):
                        "under one seeded schedule (random with 5 stickiness levels, stickiness 0, or PCT); per seed the block table is pre-reserved (4 slots per block) "
                        "or starts empty with 2 slots per block (growth races with the scan); SC passes are replayed in lock-step, VRT_MEM=view passes (stale reads "
                        "per the view model, 35% / 70% of the loads) are oracle only. non-trivial = some low_water_mark() was held back by an open region, or an "
-                       "Accessor changed threads, or an id allocation overlapped a scan, or the table grew; distinct by trace hash (addresses removed)")
+                       "Accessor changed threads, or an id allocation overlapped a scan, or the table grew, or an Accessor was released inside a region "
+                       "(1/8 of the regions); distinct by trace hash (addresses removed)")
     ctx.cov["samples"] = samples or [["<no sample>"]]
 
 
